@@ -392,14 +392,23 @@ package main
 
 // hardware tokens: the assertion must answer the challenge stored for the authenticated user, and the challenge
 // must be gone before the session is upgraded (one-time)
+// the challenge this request found stored for the authenticated user when it entered the critical section on the
+// shared map (taking the mutex forgets the map: these are the values that critical section sees)
+//@ ghost var ghostChallengeTaken bool
+//@ ghost var ghostTakenU2F *u2f.Challenge
+//@ ghost var ghostTakenWebauthn *webauthn.SessionData
 //@ func (*RuntimeState).u2fSignResponse
-//@   loop 1 (authData *authInfo, localAuth localUserData) invariant ghostAuthed && authData.Username == ghostAuthUser && authData.AuthType == ghostAuthLevel && ghostProfileUser == ghostAuthUser && ghostVerifiedBits == 0 && hasKey(state.localAuthData, ghostAuthUser) && same(state.localAuthData[ghostAuthUser], localAuth)  #C05.u2f-loop @C05
-//@   loop 2 (authData *authInfo, localAuth localUserData) invariant ghostAuthed && authData.Username == ghostAuthUser && authData.AuthType == ghostAuthLevel && ghostProfileUser == ghostAuthUser && ghostVerifiedBits == 0 && hasKey(state.localAuthData, ghostAuthUser) && same(state.localAuthData[ghostAuthUser], localAuth)  #C05.u2f-loop2 @C05
-//@   atcall u2f.Registration).Authenticate sets ghostVerifiedBits int (reg *u2f.Registration, resp u2f.SignResponse, c u2f.Challenge, counter uint32, newCounter uint32, err error) :: ghostVerifiedBits | AuthTypeU2F if err == nil && ghostProfileUser == ghostAuthUser && hasKey(state.localAuthData, ghostAuthUser) && same(c, *state.localAuthData[ghostAuthUser].U2fAuthChallenge)
+//@   atcall sync.Mutex).Lock sets ghostChallengeTaken bool (m *sync.Mutex) :: true if hasKey(state.localAuthData, ghostAuthUser)
+//@   atcall sync.Mutex).Lock sets ghostTakenU2F *u2f.Challenge (m *sync.Mutex) :: state.localAuthData[ghostAuthUser].U2fAuthChallenge if hasKey(state.localAuthData, ghostAuthUser)
+//@   loop 1 (authData *authInfo, localAuth localUserData) invariant ghostAuthed && authData.Username == ghostAuthUser && authData.AuthType == ghostAuthLevel && ghostProfileUser == ghostAuthUser && ghostVerifiedBits == 0 && !hasKey(state.localAuthData, ghostAuthUser) && ghostChallengeTaken && localAuth.U2fAuthChallenge == ghostTakenU2F  #C05.u2f-loop @C05
+//@   loop 2 (authData *authInfo, localAuth localUserData) invariant ghostAuthed && authData.Username == ghostAuthUser && authData.AuthType == ghostAuthLevel && ghostProfileUser == ghostAuthUser && ghostVerifiedBits == 0 && !hasKey(state.localAuthData, ghostAuthUser) && ghostChallengeTaken && localAuth.U2fAuthChallenge == ghostTakenU2F  #C05.u2f-loop2 @C05
+//@   atcall u2f.Registration).Authenticate sets ghostVerifiedBits int (reg *u2f.Registration, resp u2f.SignResponse, c u2f.Challenge, counter uint32, newCounter uint32, err error) :: ghostVerifiedBits | AuthTypeU2F if err == nil && ghostProfileUser == ghostAuthUser && ghostChallengeTaken && same(c, *ghostTakenU2F)
 //@   atcall (*RuntimeState).updateAuthCookieAuthlevel requires (s2 *RuntimeState, w2 http.ResponseWriter, r2 *http.Request, username string, authlevel int) :: !hasKey(state.localAuthData, ghostAuthUser)  #C05.u2f-challenge-consumed @C05
 //@ func (*RuntimeState).webauthnAuthFinish
-//@   atcall webauthn.WebAuthn).ValidateLogin sets ghostVerifiedBits int (wa *webauthn.WebAuthn, user webauthn.User, session webauthn.SessionData, parsed *protocol.ParsedCredentialAssertionData, cred *webauthn.Credential, err error) :: ghostVerifiedBits | AuthTypeU2F | AuthTypeFIDO2 if err == nil && ghostProfileUser == ghostAuthUser && isType[*userProfile](user) && asType[*userProfile](user) == ghostProfile && hasKey(state.localAuthData, ghostAuthUser) && same(session, *state.localAuthData[ghostAuthUser].WebAuthnChallenge)
-//@   atcall protocol.ParsedCredentialAssertionData).Verify sets ghostVerifiedBits int (parsed *protocol.ParsedCredentialAssertionData, storedChallenge string, rpID string, rpOrigin string, appID string, verifyUser bool, credentialBytes []byte, err error) :: ghostVerifiedBits | AuthTypeU2F if err == nil && ghostProfileUser == ghostAuthUser && hasKey(state.localAuthData, ghostAuthUser) && storedChallenge == state.localAuthData[ghostAuthUser].WebAuthnChallenge.Challenge
+//@   atcall sync.Mutex).Lock sets ghostChallengeTaken bool (m *sync.Mutex) :: true if hasKey(state.localAuthData, ghostAuthUser)
+//@   atcall sync.Mutex).Lock sets ghostTakenWebauthn *webauthn.SessionData (m *sync.Mutex) :: state.localAuthData[ghostAuthUser].WebAuthnChallenge if hasKey(state.localAuthData, ghostAuthUser)
+//@   atcall webauthn.WebAuthn).ValidateLogin sets ghostVerifiedBits int (wa *webauthn.WebAuthn, user webauthn.User, session webauthn.SessionData, parsed *protocol.ParsedCredentialAssertionData, cred *webauthn.Credential, err error) :: ghostVerifiedBits | AuthTypeU2F | AuthTypeFIDO2 if err == nil && ghostProfileUser == ghostAuthUser && isType[*userProfile](user) && asType[*userProfile](user) == ghostProfile && ghostChallengeTaken && same(session, *ghostTakenWebauthn)
+//@   atcall protocol.ParsedCredentialAssertionData).Verify sets ghostVerifiedBits int (parsed *protocol.ParsedCredentialAssertionData, storedChallenge string, rpID string, rpOrigin string, appID string, verifyUser bool, credentialBytes []byte, err error) :: ghostVerifiedBits | AuthTypeU2F if err == nil && ghostProfileUser == ghostAuthUser && ghostChallengeTaken && storedChallenge == ghostTakenWebauthn.Challenge
 //@   atcall (*RuntimeState).updateAuthCookieAuthlevel requires (s2 *RuntimeState, w2 http.ResponseWriter, r2 *http.Request, username string, authlevel int) :: !hasKey(state.localAuthData, ghostAuthUser)  #C05.webauthn-challenge-consumed @C05
 
 // bootstrap OTP: the hash compared must be the unexpired one stored in the authenticated user's own profile, and
